@@ -11,8 +11,10 @@ import (
 
 const (
 	// Frost KeyGen with Threshold.
-	protocolID        = "frost/keygen-threshold"
-	protocolIDTaproot = "frost/keygen-threshold-taproot"
+	protocolID               = "frost/keygen-threshold"
+	protocolIDTaproot        = "frost/keygen-threshold-taproot"
+	protocolIDRefresh        = "frost/refresh-threshold"
+	protocolIDRefreshTaproot = "frost/refresh-threshold-taproot"
 	// This protocol has 3 concrete rounds.
 	protocolRounds round.Number = 3
 )
@@ -37,6 +39,14 @@ func StartKeygenCommon(taproot bool, group curve.Curve, participants []party.ID,
 			info.ProtocolID = protocolIDTaproot
 		} else {
 			info.ProtocolID = protocolID
+		}
+		// a refresh is a different protocol than a key generation: its messages must not be accepted by one
+		if privateShare != nil && publicKey != nil {
+			if taproot {
+				info.ProtocolID = protocolIDRefreshTaproot
+			} else {
+				info.ProtocolID = protocolIDRefresh
+			}
 		}
 
 		helper, err := round.NewSession(info, sessionID, nil)
